@@ -21,7 +21,7 @@ META = {
     "level_note": "Only observed, compared as opaque tokens (64-bit SHA-1 prefix of the Debug rendering, or of raw bytes): all payload values "
                   "(floats, colours, indices, names). The independent walker in the driver knows only the framing rule and the record sizes / "
                   "field offsets that TLC emitted with the cases. Stage A speaks about the model; only stages C+D speak about the code. The "
-                  "shape space is sampled, not exhausted (exhaustive=false): quick 858 cases, thorough ~14 000. Versions Classic..MoP (all "
+                  "shape space is sampled, not exhausted (exhaustive=false): quick ~1 180 cases, thorough ~14 600. Versions Classic..MoP (all "
                   "MVER 17); convex volume planes (MCVP) are outside the property's list and not generated. The legacy group parser is a stub "
                   "(known finding), so group content is judged through parse_wmo only (projections both object models can express); liquid "
                   "payload and MOBA flag bytes of groups are not compared across the two object models.",
@@ -103,7 +103,7 @@ def run(ctx, cases_override=None):
         "rule": "one evaluation = one recorded event judged by TLC in trace validation (Write/AltWrite/Chunks/Count/StrRef/Bsp/PortalRefs/Parse/"
                 "Sec/Rewrite/RwChunk/Convert/End; Reset events are not counted); distinct_nontrivial = number of distinct shape records "
                 "(kind, version, conversion target, list cardinalities, inner-list patterns, string class, extreme floats, BSP tree / portal "
-                "graph) among the replayed cases in which at least one list cardinality (ntex..nds for roots, nvert..ndref/liq for groups) "
+                "graph, flag class) among the replayed cases in which at least one list cardinality (ntex..nds for roots, nvert..ndref/liq for groups) "
                 "is > 0",
         # stage B enumerates deterministic slices completely, but the shape space as a whole is sampled (seeded draws)
         "exhaustive": False,
